@@ -25,7 +25,9 @@ ASSUMPTIONS = [
     '(document bodies are the business of C02)',
     'list-valued _id (rejected with TypeError by the code) and _id sub-documents holding arrays '
     'of sub-documents (unhashable) are outside the generator',
-    'positional $ paths, negative array indexes: unmodelled (history cut there)',
+    'negative array indexes and the other inputs the update model does not express: unmodelled '
+    '(history cut there); these histories draw no positional $ paths (the positional operator is modelled '
+    'and judged under C02)',
 ]
 
 known_labels = {e['id'] for e in common.load_known(ID) if e.get('status') == 'known'}
